@@ -16,7 +16,7 @@ pub static DEF: PropDef = PropDef {
     id: "C16",
     level: "exploration",
     engine: "query",
-    rule: "one run = a real CachedObjectStore + TieredCache (L1 from 300 bytes, i.e. evict on every insert, to 8 MB; no disk tier in the seeded phase, foyer disk tier of 64 KB..1 MB on /dev/shm in the thorough-only 'l2' phase) over the simulated store, a growing set of 80..200 write-once objects of 1 byte..6 KB (one run in ten: 20..50 objects, one or two of them 2..5 MiB) written in 3..5 waves (a third of the runs with writes that fail before / after taking effect, create-only uploads, a create-only re-upload of an existing name that the store refuses, and a failed write of a never-written name; the model is what the backing store holds after each attempt), and 2..4 concurrent reader tasks issuing 30..80 reads each (whole GET, get_range, get_ranges with nested / touching / out-of-order ranges, GET with range option, If-Match / If-None-Match with right and wrong ETags, never-written keys incl. keys that share a file name or prefix with written ones); the inner store's requests are seeded scheduling points (concurrent misses on the same and on different keys), half of the runs inject request failures on the miss path, a third drop one read in eight at a seeded point (reader went away: a dropped leader of a coalesced miss must not poison what the others get); whenever a read returns bytes they must equal the backing store's object (the requested range of it), a missing key must fail; distinct = distinct grant sequence; non-trivial = completed AND an L1 eviction happened (misses on re-read keys)",
+    rule: "one run = a real CachedObjectStore + TieredCache (L1 from 300 bytes, i.e. evict on every insert, to 8 MB; no disk tier in the seeded phase, foyer disk tier of 64 KB..1 MB on /dev/shm in the thorough-only 'l2' phase) over the simulated store, a growing set of 80..200 write-once objects of 1 byte..6 KB (one run in ten: 20..50 objects, one or two of them 2..5 MiB) written in 3..5 waves (a third of the runs with writes that fail before / after taking effect, create-only uploads, a create-only re-upload of an existing name that the store refuses, and a failed write of a never-written name; the model is what the backing store holds after each attempt), and 2..4 concurrent reader tasks issuing 30..80 reads each (whole GET, get_range, get_ranges with nested / touching / out-of-order ranges, GET with range option, If-Match / If-None-Match with right and wrong ETags, If-Modified-Since / If-Unmodified-Since with satisfied and unsatisfied dates, never-written keys incl. keys that share a file name or prefix with written ones); the inner store's requests are seeded scheduling points (concurrent misses on the same and on different keys), half of the runs inject request failures on the miss path, a third drop one read in eight at a seeded point (reader went away: a dropped leader of a coalesced miss must not poison what the others get); whenever a read returns bytes they must equal the backing store's object (the requested range of it), a missing key must fail; distinct = distinct grant sequence; non-trivial = completed AND an L1 eviction happened (misses on re-read keys)",
     quick_runs: 5000,
     thorough_runs: 30_000,
     run_cap_ms: 60_000,
@@ -175,7 +175,7 @@ fn scen(spec: RunSpec) -> ScenFut {
             for r in 0..readers {
                 let nreads = sim::w_range(30, 80);
                 let plan: Vec<(u32, usize, usize, usize, Option<u32>)> = (0..nreads)
-                    .map(|_| (sim::w(11), sim::w(written as u32 + 6) as usize, sim::w(7000) as usize, sim::w(7000) as usize, if cancels && sim::w(8) == 7 { Some(sim::w(6)) } else { None }))
+                    .map(|_| (sim::w(13), sim::w(written as u32 + 6) as usize, sim::w(7000) as usize, sim::w(7000) as usize, if cancels && sim::w(8) == 7 { Some(sim::w(6)) } else { None }))
                     .collect();
                 let cs = cs.clone();
                 let model = model.clone();
@@ -263,6 +263,19 @@ fn scen(spec: RunSpec) -> ScenFut {
                                     Err(e) => Err(e.to_string()),
                                 })
                             }
+                            11 | 12 => {
+                                // date preconditions: the caching store must answer as the backing store would
+                                let far = chrono::Duration::days(if a % 2 == 0 { 3650 } else { -3650 });
+                                let t = chrono::DateTime::<chrono::Utc>::from_timestamp(1_700_000_000, 0).unwrap() + far;
+                                let o = if kind == 11 { GetOptions { if_modified_since: Some(t), ..Default::default() } } else { GetOptions { if_unmodified_since: Some(t), ..Default::default() } };
+                                let label = format!("get_opts {}({})", if kind == 11 { "if_modified_since" } else { "if_unmodified_since" }, if a % 2 == 0 { "future" } else { "past" });
+                                // modified-since a future date and unmodified-since a past date are not satisfied
+                                let must_fail = (kind == 11) == (a % 2 == 0);
+                                (if must_fail { format!("{label} [precondition not satisfied]") } else { label }, match cs.get_opts(&p, o).await {
+                                    Ok(g) => g.bytes().await.map_err(|e| e.to_string()),
+                                    Err(e) => Err(e.to_string()),
+                                })
+                            }
                             8 => {
                                 let o = GetOptions { if_match: Some("no-such-etag".into()), ..Default::default() };
                                 ("get_opts if_match(wrong)".into(), match cs.get_opts(&p, o).await {
@@ -331,6 +344,9 @@ fn scen(spec: RunSpec) -> ScenFut {
                                 }
                                 if what.contains("if_match(wrong)") {
                                     sim::violation("C16/precondition-ignored", format!("reader {r}: {what} of {name} succeeded although the ETag does not match"));
+                                }
+                                if what.contains("[precondition not satisfied]") {
+                                    sim::violation("C16/precondition-ignored/date", format!("reader {r}: {what} of {name} returned the object; the backing store answers such a request with NotModified / Precondition"));
                                 }
                             }
                             (Some(_), Err(_)) => {
